@@ -77,6 +77,13 @@ class FogSys:
             out.append((((A[0],), (A[0], A[-1])), False))       # nested
             out.append((((A[-1], A[0]), (A[-1],)), False))      # nested, longer first
             out.append((((A[0], A[0]), (A[0], A[0])), False))   # duplicate long
+        if r >= 3:
+            a, b = A[0], A[-1]
+            out.append((((a,), (b, a), (b, b, a)), True))           # three distinct lengths, no nesting
+            out.append((((a, a, b),), True))
+            out.append((((a,), (b, a), (b, a, b)), False))          # nested pair among the two longer ones
+            out.append((((b, a, b), (b, a), (a,)), False))          # same, longest first
+            out.append((((a,), (b, b), (a, b, b)), False))          # nested under the shortest
         return out
 
     def events(self, snap, model):
